@@ -1,5 +1,5 @@
 (* Sink_proofs.v - lemmas about model/Sink.v (the output path of create over a fallible sink) for C15 *)
-From Ragc Require Import Mach Consts_archive Consts_sink Varint Container Sink Varint_proofs Container_proofs.
+From Ragc Require Import Mach Consts_archive Consts_sink Varint Container Sink.
 From Coq Require Import Lia ZifyBool ZifyN ZifyNat.
 Arguments N.add : simpl never.
 Arguments N.sub : simpl never.
@@ -16,6 +16,37 @@ Proof. reflexivity. Qed.
 
 Lemma pipeline_buffers_everything_proof : pipeline_buffers_everything = true.
 Proof. reflexivity. Qed.
+
+(* ------------------------------------------------------------------ lists (local copies: keeps this file's
+   dependencies down to the models) *)
+Lemma lenN_app : forall {A} (a b : list A), lenN (a ++ b) = lenN a + lenN b.
+Proof. intros. unfold lenN. rewrite app_length. lia. Qed.
+Lemma lenN_cons : forall {A} (x : A) l, lenN (x :: l) = 1 + lenN l.
+Proof. intros. unfold lenN. cbn [length]. lia. Qed.
+Lemma lenN_nil : forall {A}, lenN (@nil A) = 0.
+Proof. reflexivity. Qed.
+Lemma skipnS_eq : forall {A} n (l : list A), skipnS n l = skipnN n l.
+Proof.
+  intros A n l. revert n. induction l as [|x r IH]; intros n; cbn [skipnS].
+  - unfold skipnN. rewrite skipn_nil. reflexivity.
+  - destruct (n =? 0) eqn:E.
+    + apply N.eqb_eq in E. subst. reflexivity.
+    + rewrite IH. unfold skipnN. replace (N.to_nat n) with (S (N.to_nat (N.pred n))) by lia. reflexivity.
+Qed.
+Lemma firstnS_eq : forall {A} n (l : list A), firstnS n l = firstnN n l.
+Proof.
+  intros A n l. revert n. induction l as [|x r IH]; intros n; cbn [firstnS].
+  - unfold firstnN. rewrite firstn_nil. reflexivity.
+  - destruct (n =? 0) eqn:E.
+    + apply N.eqb_eq in E. subst. reflexivity.
+    + rewrite IH. unfold firstnN. replace (N.to_nat n) with (S (N.to_nat (N.pred n))) by lia. reflexivity.
+Qed.
+Lemma lenN_firstnN : forall {A} n (l : list A), n <= lenN l -> lenN (firstnN n l) = n.
+Proof. intros. unfold lenN, firstnN in *. rewrite firstn_length. lia. Qed.
+Lemma lenN_skipnN : forall {A} n (l : list A), lenN (skipnN n l) = lenN l - n.
+Proof. intros. unfold lenN, skipnN. rewrite skipn_length. lia. Qed.
+Lemma firstnN_skipnN : forall {A} n (l : list A), firstnN n l ++ skipnN n l = l.
+Proof. intros. apply firstn_skipn. Qed.
 
 (* ------------------------------------------------------------------ small facts *)
 Lemma io_cases : forall r : io, r = Ok tt \/ r = Err \/ r = Panic.
@@ -54,7 +85,7 @@ Proof. intros. unfold sink_bytes. cbn [s_chunks rev]. rewrite concat_app. cbn [c
 (* every call appends what it accepted, nothing else *)
 Lemma sink_write_appends : forall s bs s' r, sink_write s bs = (s', r) ->
   exists x, sink_bytes s' = sink_bytes s ++ x /\ s_len s' = s_len s + lenN x /\ s_pol s' = s_pol s /\
-            (r = Ok tt -> x = bs) /\ (r = Ok tt \/ r = Err).
+            (r = Ok tt -> x = bs) /\ (r = Ok tt \/ r = Err) /\ x = firstnN (lenN x) bs.
 Proof.
   intros s bs s' r H. unfold sink_write in H. cbv zeta in H.
   destruct (lenN bs =? 0) eqn:E0.
@@ -63,16 +94,18 @@ Proof.
     + intros _. symmetry. apply lenN_0_nil. lia.
   - destruct (lenN bs <=? s_pol s (s_calls s) (s_len s) (lenN bs)) eqn:E1; injection H as <- <-.
     + exists bs. destruct s as [p c l ch]. rewrite sink_bytes_cons. cbn [s_len s_pol]. repeat split; auto.
+      unfold firstnN, lenN. rewrite Nat2N.id. symmetry. apply firstn_all.
     + exists (firstnS (s_pol s (s_calls s) (s_len s) (lenN bs)) bs). destruct s as [p c l ch].
       rewrite sink_bytes_cons. cbn [s_len s_pol s_calls] in *. repeat split; auto.
       * rewrite firstnS_eq, lenN_firstnN by lia. reflexivity.
       * intros X. discriminate X.
+      * rewrite firstnS_eq, lenN_firstnN by lia. reflexivity.
 Qed.
 
 Lemma sink_write_ok : forall s bs s', sink_write s bs = (s', Ok tt) ->
   sink_bytes s' = sink_bytes s ++ bs /\ s_len s' = s_len s + lenN bs /\ s_pol s' = s_pol s.
 Proof.
-  intros s bs s' H. destruct (sink_write_appends _ _ _ _ H) as (x & A & B & C & D & _).
+  intros s bs s' H. destruct (sink_write_appends _ _ _ _ H) as (x & A & B & C & D & _ & _).
   rewrite (D eq_refl) in *. auto.
 Qed.
 
@@ -116,7 +149,7 @@ Lemma bw_flush_buf_res : forall b b' r, bw_flush_buf b = (b', r) -> r = Ok tt \/
 Proof.
   intros b b' r H. unfold bw_flush_buf in H. destruct (b_len b =? 0); [injection H as <- <-; auto|].
   destruct (sink_write (b_sink b) (buf_bytes b)) as [s' r0] eqn:E.
-  destruct (sink_write_appends _ _ _ _ E) as (_ & _ & _ & _ & _ & [-> | ->]); injection H as <- <-; auto.
+  destruct (sink_write_appends _ _ _ _ E) as (_ & _ & _ & _ & _ & [-> | ->] & _); injection H as <- <-; auto.
 Qed.
 
 Lemma bw_flush_buf_ok : forall b b', bw_inv b -> bw_flush_buf b = (b', Ok tt) ->
@@ -141,28 +174,15 @@ Proof.
   - destruct (bw_flush_buf_ok _ _ I H) as (A & B & _ & D). auto.
   - destruct I as (L & C & O). unfold bw_flush_buf in H. destruct (b_len b =? 0) eqn:E0; [discriminate H|].
     destruct (sink_write (b_sink b) (buf_bytes b)) as [s' r] eqn:E.
-    destruct (sink_write_appends _ _ _ _ E) as (x & A & B & _ & _ & _).
+    destruct (sink_write_appends _ _ _ _ E) as (x & A & B & _ & _ & _ & X).
     pose proof (sink_write_keeps_ok _ _ _ _ O E) as O'.
-    assert (X : x = firstnN (lenN x) (buf_bytes b)).
-    { unfold sink_write in E. cbv zeta in E. destruct (lenN (buf_bytes b) =? 0) eqn:E1.
-      - injection E as <- _. apply app_inv_head with (l := sink_bytes (b_sink b)) in A.
-        + rewrite <- A. reflexivity.
-      - destruct (lenN (buf_bytes b) <=? s_pol (b_sink b) (s_calls (b_sink b)) (s_len (b_sink b)) (lenN (buf_bytes b))) eqn:E2;
-          injection E as <- _; destruct (b_sink b) as [p c l ch]; rewrite sink_bytes_cons in A;
-          apply app_inv_head in A; subst x.
-        + unfold firstnN. rewrite Nat2N.id. symmetry. apply firstn_all.
-        + cbn [s_pol s_calls s_len] in *. rewrite firstnS_eq. rewrite lenN_firstnN by lia. reflexivity. }
     assert (XL : lenN x <= lenN (buf_bytes b)).
     { rewrite X at 1. unfold lenN, firstnN. rewrite firstn_length. lia. }
-    destruct r as [[]| |]; injection H as <-; try discriminate.
-    + unfold bw_inv, bw_stream, buf_bytes. cbn [b_len b_cap b_buf b_sink rev concat app].
-      rewrite app_nil_r. fold (buf_bytes b). replace (s_len s' - s_len (b_sink b)) with (lenN x) by lia.
-      rewrite skipnS_eq, lenN_skipnN. repeat split; auto; try lia.
-      rewrite A, <- app_assoc. f_equal. rewrite X at 1. apply firstnN_skipnN.
-    + unfold bw_inv, bw_stream, buf_bytes. cbn [b_len b_cap b_buf b_sink rev concat app].
-      rewrite app_nil_r. fold (buf_bytes b). replace (s_len s' - s_len (b_sink b)) with (lenN x) by lia.
-      rewrite skipnS_eq, lenN_skipnN. repeat split; auto; try lia.
-      rewrite A, <- app_assoc. f_equal. rewrite X at 1. apply firstnN_skipnN.
+    destruct r as [[]| |]; try discriminate H. injection H as <-.
+    unfold bw_inv, bw_stream, buf_bytes. cbn [b_len b_cap b_buf b_sink rev concat app].
+    rewrite app_nil_r. fold (buf_bytes b). replace (s_len s' - s_len (b_sink b)) with (lenN x) by lia.
+    rewrite skipnS_eq, lenN_skipnN. repeat split; auto; try lia.
+    rewrite A, <- app_assoc. f_equal. rewrite X at 1. apply firstnN_skipnN.
 Qed.
 
 Lemma bw_write_all_pres : forall P b bs, sink_pres P -> P (b_sink b) -> P (b_sink (fst (bw_write_all b bs))).
@@ -198,7 +218,7 @@ Proof.
   destruct R1 as [-> | ->]; [|injection H as <- <-; auto].
   destruct (b_cap b1 <=? lenN bs); [|injection H as <- <-; auto].
   destruct (sink_write (b_sink b1) bs) as [s' r0] eqn:E.
-  destruct (sink_write_appends _ _ _ _ E) as (_ & _ & _ & _ & _ & [-> | ->]); injection H as <- <-; auto.
+  destruct (sink_write_appends _ _ _ _ E) as (_ & _ & _ & _ & _ & [-> | ->] & _); injection H as <- <-; auto.
 Qed.
 
 (* a successful write_all hands the bytes on in order: the stream grows by exactly bs *)
@@ -214,9 +234,11 @@ Proof.
                 (b_cap b - b_len b <? lenN bs = true -> b_len b1 = 0 /\ buf_bytes b1 = []) /\
                 (b_cap b - b_len b <? lenN bs = false -> b1 = b)).
     { intros ->. destruct (b_cap b - b_len b <? lenN bs) eqn:E2.
-      - destruct (bw_flush_buf_ok _ _ I E1) as (A & B & D & F). repeat split; auto; try discriminate.
-        destruct A as (A1 & _). rewrite A1, D. reflexivity.
-      - injection E1 as <-. repeat split; auto; discriminate. }
+      - destruct (bw_flush_buf_ok _ _ I E1) as (A & B & D & F).
+        split; [exact A|]. split; [exact B|]. split; [exact F|]. split; [|discriminate].
+        intros _. split; [|exact D]. destruct A as (A1 & _). rewrite A1, D. reflexivity.
+      - injection E1 as <-.
+        split; [exact I|]. split; [reflexivity|]. split; [reflexivity|]. split; [discriminate|reflexivity]. }
     destruct r1 as [[]| |]; try discriminate H.
     destruct (X eq_refl) as (I1 & S1 & C1 & F1 & F2). clear X.
     destruct (b_cap b1 <=? lenN bs) eqn:E3.
@@ -236,4 +258,460 @@ Proof.
       destruct (b_cap b - b_len b <? lenN bs) eqn:E2.
       * destruct (F1 eq_refl) as (Z1 & _). lia.
       * rewrite (F2 eq_refl) in *. lia.
+Qed.
+
+(* ------------------------------------------------------------------ Archive (output mode) *)
+Definition ar_sink (a : arch) : sink := b_sink (a_bw a).
+
+(* open for writing, buffer within capacity, and nothing lost or reordered so far: what the file holds plus
+   what the BufWriter holds is exactly what the writer state says was written *)
+Definition ar_inv (a : arch) : Prop :=
+  a_open a = true /\ bw_inv (a_bw a) /\ bw_stream (a_bw a) = w_bytes (a_w a).
+
+Lemma ar_open_inv : forall pol cap, ar_inv (ar_open pol cap).
+Proof.
+  intros. unfold ar_inv, ar_open. cbn [a_open a_bw a_w]. destruct (bw_new_inv cap pol) as (A & B).
+  split; [reflexivity|]. split; [exact A|]. rewrite B. reflexivity.
+Qed.
+
+Lemma w_bytes_cons2 : forall o st mp bf (d mb : list N) ch,
+  w_bytes (mkW o st mp bf (d :: mb :: ch)) = concat (rev ch) ++ mb ++ d.
+Proof.
+  intros. unfold w_bytes. cbn [w_chunks rev]. rewrite !concat_app. cbn [concat].
+  rewrite !app_nil_r, <- app_assoc. reflexivity.
+Qed.
+
+Lemma add_part_valid : forall w sid d m, lenN (w_streams w) <=? sid = false ->
+  add_part w sid d m =
+  (mkW (w_off w + lenN (write_varint m) + lenN d)
+       (upd_nth (N.to_nat sid) (ws_push_part (mkPart (w_off w) (lenN d))) (w_streams w))
+       (w_map w) (w_buf w) (d :: write_varint m :: w_chunks w), Ok tt).
+Proof. intros w sid d m E. unfold add_part. rewrite E. reflexivity. Qed.
+
+Lemma ar_add_part_res : forall S a sid d m, snd (ar_add_part S a sid d m) = Ok tt \/ snd (ar_add_part S a sid d m) = Err.
+Proof.
+  intros. unfold ar_add_part. cbv zeta.
+  destruct (lenN (w_streams (a_w a)) <=? sid); [auto|]. destruct (negb (a_open a)); [auto|].
+  destruct (bw_write_all (a_bw a) (write_varint m)) as [b1 r1].
+  destruct (stops (p_add_meta S) r1); [auto|].
+  destruct (bw_write_all b1 d) as [b2 r2]. destruct (stops (p_add_data S) r2); auto.
+Qed.
+
+Lemma ar_add_part_pres : forall P S a sid d m, sink_pres P -> P (ar_sink a) -> P (ar_sink (fst (ar_add_part S a sid d m))).
+Proof.
+  intros P S a sid d m HP H. unfold ar_add_part. cbv zeta.
+  destruct (lenN (w_streams (a_w a)) <=? sid); [exact H|]. destruct (negb (a_open a)); [exact H|].
+  pose proof (bw_write_all_pres P (a_bw a) (write_varint m) HP H) as H1.
+  destruct (bw_write_all (a_bw a) (write_varint m)) as [b1 r1]. cbn [fst] in H1.
+  destruct (stops (p_add_meta S) r1); [exact H1|].
+  pose proof (bw_write_all_pres P b1 d HP H1) as H2.
+  destruct (bw_write_all b1 d) as [b2 r2]. cbn [fst] in H2.
+  destruct (stops (p_add_data S) r2); exact H2.
+Qed.
+
+Lemma ar_add_part_ok : forall a sid d m a', ar_inv a -> ar_add_part all_true a sid d m = (a', Ok tt) ->
+  ar_inv a' /\ add_part (a_w a) sid d m = (a_w a', Ok tt).
+Proof.
+  intros a sid d m a' (Op & I & St) H. unfold ar_add_part in H. cbv zeta in H.
+  destruct (lenN (w_streams (a_w a)) <=? sid) eqn:E; [discriminate H|]. rewrite Op in H. cbn [negb] in H.
+  destruct (bw_write_all (a_bw a) (write_varint m)) as [b1 r1] eqn:E1. cbn [all_true p_add_meta p_add_data] in H.
+  destruct (stops true r1) eqn:S1; [discriminate H|]. apply stops_true in S1. subst r1.
+  destruct (bw_write_all_ok _ _ _ I E1) as (I1 & St1 & _).
+  destruct (bw_write_all b1 d) as [b2 r2] eqn:E2.
+  destruct (stops true r2) eqn:S2; [discriminate H|]. apply stops_true in S2. subst r2.
+  destruct (bw_write_all_ok _ _ _ I1 E2) as (I2 & St2 & _).
+  injection H as <-. cbn [a_w a_bw a_open]. rewrite (add_part_valid _ _ _ _ E). cbn [fst].
+  split; [|reflexivity]. unfold ar_inv. cbn [a_w a_bw a_open].
+  split; [reflexivity|]. split; [exact I2|].
+  rewrite St2, St1, St, w_bytes_cons2, <- app_assoc. reflexivity.
+Qed.
+
+Lemma ar_flush_items_res : forall S its a sid,
+  snd (ar_flush_items S a sid its) = Ok tt \/ snd (ar_flush_items S a sid its) = Err.
+Proof.
+  intros S its. induction its as [|[d m] r IH]; intros a sid; cbn [ar_flush_items]; [auto|].
+  destruct (ar_add_part S a sid d m) as [a' res]. destruct (stops (p_fb_add S) res); [auto|apply IH].
+Qed.
+
+Lemma ar_flush_items_pres : forall P S its a sid, sink_pres P -> P (ar_sink a) ->
+  P (ar_sink (fst (ar_flush_items S a sid its))).
+Proof.
+  intros P S its. induction its as [|[d m] r IH]; intros a sid HP H; cbn [ar_flush_items]; [exact H|].
+  pose proof (ar_add_part_pres P S a sid d m HP H) as H1.
+  destruct (ar_add_part S a sid d m) as [a' res]. cbn [fst] in H1.
+  destruct (stops (p_fb_add S) res); [exact H1|apply IH; assumption].
+Qed.
+
+Lemma ar_flush_items_ok : forall its a sid a', ar_inv a -> ar_flush_items all_true a sid its = (a', Ok tt) ->
+  ar_inv a' /\ flush_items (a_w a) sid its = (a_w a', Ok tt).
+Proof.
+  induction its as [|[d m] r IH]; intros a sid a' I H; cbn [ar_flush_items flush_items] in *.
+  - injection H as <-. auto.
+  - destruct (ar_add_part all_true a sid d m) as [a1 res] eqn:E. cbn [all_true p_fb_add] in H.
+    destruct (stops true res) eqn:S1; [discriminate H|]. apply stops_true in S1. subst res.
+    destruct (ar_add_part_ok _ _ _ _ _ I E) as (I1 & P1). rewrite P1.
+    apply IH; assumption.
+Qed.
+
+Lemma ar_flush_groups_res : forall S b a,
+  snd (ar_flush_groups S a b) = Ok tt \/ snd (ar_flush_groups S a b) = Err.
+Proof.
+  intros S b. induction b as [|[sid its] r IH]; intros a; cbn [ar_flush_groups]; [auto|].
+  pose proof (ar_flush_items_res S its a sid) as R.
+  destruct (ar_flush_items S a sid its) as [a' res]. cbn [snd] in R.
+  destruct R as [-> | ->]; [apply IH | auto].
+Qed.
+
+Lemma ar_flush_groups_pres : forall P S b a, sink_pres P -> P (ar_sink a) ->
+  P (ar_sink (fst (ar_flush_groups S a b))).
+Proof.
+  intros P S b. induction b as [|[sid its] r IH]; intros a HP H; cbn [ar_flush_groups]; [exact H|].
+  pose proof (ar_flush_items_pres P S its a sid HP H) as H1.
+  destruct (ar_flush_items S a sid its) as [a' res]. cbn [fst] in H1.
+  destruct res as [[]| |]; [apply IH; assumption | exact H1 | exact H1].
+Qed.
+
+Lemma ar_flush_groups_ok : forall b a a', ar_inv a -> ar_flush_groups all_true a b = (a', Ok tt) ->
+  ar_inv a' /\ flush_groups (a_w a) b = (a_w a', Ok tt).
+Proof.
+  induction b as [|[sid its] r IH]; intros a a' I H; cbn [ar_flush_groups flush_groups] in *.
+  - injection H as <-. auto.
+  - destruct (ar_flush_items all_true a sid its) as [a1 res] eqn:E.
+    destruct res as [[]| |]; try (injection H as _ X; discriminate X).
+    destruct (ar_flush_items_ok _ _ _ _ I E) as (I1 & P1). rewrite P1. apply IH; assumption.
+Qed.
+
+Lemma ar_flush_buffers_res : forall S a,
+  snd (ar_flush_buffers S a) = Ok tt \/ snd (ar_flush_buffers S a) = Err.
+Proof. intros. apply ar_flush_groups_res. Qed.
+
+Lemma ar_flush_buffers_pres : forall P S a, sink_pres P -> P (ar_sink a) -> P (ar_sink (fst (ar_flush_buffers S a))).
+Proof. intros. unfold ar_flush_buffers. cbv zeta. apply ar_flush_groups_pres; assumption. Qed.
+
+Lemma ar_flush_buffers_ok : forall a a', ar_inv a -> ar_flush_buffers all_true a = (a', Ok tt) ->
+  ar_inv a' /\ flush_buffers (a_w a) = (a_w a', Ok tt).
+Proof.
+  intros a a' I H. unfold ar_flush_buffers in H. cbv zeta in H. unfold flush_buffers.
+  assert (I' : ar_inv (ar_with_w a (mkW (w_off (a_w a)) (w_streams (a_w a)) (w_map (a_w a)) [] (w_chunks (a_w a))))).
+  { destruct I as (Op & Ib & St). unfold ar_inv, ar_with_w. cbn [a_w a_bw a_open].
+    split; [exact Op|]. split; [exact Ib|]. exact St. }
+  exact (ar_flush_groups_ok _ _ _ I' H).
+Qed.
+
+(* ------------------------------------------------------------------ serialize / close / drop *)
+Lemma bw_flush_pres : forall P b, sink_pres P -> P (b_sink b) -> P (b_sink (fst (bw_flush b))).
+Proof. intros. apply bw_flush_buf_pres; assumption. Qed.
+
+Lemma ar_serialize_res : forall S b w, snd (ar_serialize S b w) = Ok tt \/ snd (ar_serialize S b w) = Err.
+Proof.
+  intros. unfold ar_serialize. cbv zeta.
+  destruct (bw_write_all b (footer_of w)) as [b1 r1]. destruct (stops (p_ser_footer S) r1); [auto|].
+  destruct (bw_write_all b1 (write_fixed_u64 (lenN (footer_of w)))) as [b2 r2].
+  destruct (stops (p_ser_len S) r2); [auto|].
+  destruct (bw_flush b2) as [b3 r3]. destruct (stops (p_ser_flush S) r3); auto.
+Qed.
+
+Lemma ar_serialize_pres : forall P S b w, sink_pres P -> P (b_sink b) -> P (b_sink (fst (ar_serialize S b w))).
+Proof.
+  intros P S b w HP H. unfold ar_serialize. cbv zeta.
+  pose proof (bw_write_all_pres P b (footer_of w) HP H) as H1.
+  destruct (bw_write_all b (footer_of w)) as [b1 r1]. cbn [fst] in H1.
+  destruct (stops (p_ser_footer S) r1); [exact H1|].
+  pose proof (bw_write_all_pres P b1 (write_fixed_u64 (lenN (footer_of w))) HP H1) as H2.
+  destruct (bw_write_all b1 (write_fixed_u64 (lenN (footer_of w)))) as [b2 r2]. cbn [fst] in H2.
+  destruct (stops (p_ser_len S) r2); [exact H2|].
+  pose proof (bw_flush_pres P b2 HP H2) as H3.
+  destruct (bw_flush b2) as [b3 r3]. cbn [fst] in H3.
+  destruct (stops (p_ser_flush S) r3); exact H3.
+Qed.
+
+Lemma ar_serialize_ok : forall b w b', bw_inv b -> ar_serialize all_true b w = (b', Ok tt) ->
+  bw_inv b' /\ buf_bytes b' = [] /\
+  bw_stream b' = bw_stream b ++ footer_of w ++ write_fixed_u64 (lenN (footer_of w)).
+Proof.
+  intros b w b' I H. unfold ar_serialize in H. cbv zeta in H. cbn [all_true p_ser_footer p_ser_len p_ser_flush] in H.
+  destruct (bw_write_all b (footer_of w)) as [b1 r1] eqn:E1.
+  destruct (stops true r1) eqn:S1; [discriminate H|]. apply stops_true in S1. subst r1.
+  destruct (bw_write_all_ok _ _ _ I E1) as (I1 & St1 & _).
+  destruct (bw_write_all b1 (write_fixed_u64 (lenN (footer_of w)))) as [b2 r2] eqn:E2.
+  destruct (stops true r2) eqn:S2; [discriminate H|]. apply stops_true in S2. subst r2.
+  destruct (bw_write_all_ok _ _ _ I1 E2) as (I2 & St2 & _).
+  destruct (bw_flush b2) as [b3 r3] eqn:E3.
+  destruct (stops true r3) eqn:S3; [discriminate H|]. apply stops_true in S3. subst r3.
+  injection H as <-. unfold bw_flush in E3.
+  destruct (bw_flush_buf_ok _ _ I2 E3) as (I3 & St3 & Em & _).
+  split; [exact I3|]. split; [exact Em|]. rewrite St3, St2, St1, <- app_assoc. reflexivity.
+Qed.
+
+Lemma ar_close_res : forall S a, snd (ar_close S a) = Ok tt \/ snd (ar_close S a) = Err.
+Proof.
+  intros. unfold ar_close.
+  destruct (if a_open a then bw_flush (a_bw a) else (a_bw a, Ok tt)) as [b1 r1].
+  destruct (stops (p_close_flush S) r1); [auto|].
+  destruct (if a_open a then ar_serialize S b1 (a_w a) else (b1, Err)) as [b2 r2].
+  destruct (stops (p_close_ser S) r2); auto.
+Qed.
+
+Lemma ar_close_pres : forall P S a, sink_pres P -> P (ar_sink a) -> P (ar_sink (fst (ar_close S a))).
+Proof.
+  intros P S a HP H. unfold ar_close.
+  assert (H1 : P (b_sink (fst (if a_open a then bw_flush (a_bw a) else (a_bw a, Ok tt))))).
+  { destruct (a_open a); [apply bw_flush_pres; assumption | exact H]. }
+  destruct (if a_open a then bw_flush (a_bw a) else (a_bw a, Ok tt)) as [b1 r1]. cbn [fst] in H1.
+  destruct (stops (p_close_flush S) r1); [exact H1|].
+  assert (H2 : P (b_sink (fst (if a_open a then ar_serialize S b1 (a_w a) else (b1, Err))))).
+  { destruct (a_open a); [apply ar_serialize_pres; assumption | exact H1]. }
+  destruct (if a_open a then ar_serialize S b1 (a_w a) else (b1, Err)) as [b2 r2]. cbn [fst] in H2.
+  destruct (stops (p_close_ser S) r2); [exact H2|].
+  unfold ar_sink. cbn [fst a_bw]. destruct (a_open a); [apply bw_flush_buf_pres; assumption | exact H2].
+Qed.
+
+(* a close that returns Ok has put the complete archive into the file, and nothing is left in the buffer *)
+Lemma ar_close_ok : forall a a', ar_inv a -> ar_close all_true a = (a', Ok tt) ->
+  ar_file a' = close (a_w a) /\ a_open a' = false /\ a_w a' = a_w a.
+Proof.
+  intros a a' (Op & I & St) H. unfold ar_close in H. rewrite Op in H.
+  cbn [all_true p_close_flush p_close_ser] in H.
+  destruct (bw_flush (a_bw a)) as [b1 r1] eqn:E1.
+  destruct (stops true r1) eqn:S1; [discriminate H|]. apply stops_true in S1. subst r1.
+  unfold bw_flush in E1. destruct (bw_flush_buf_ok _ _ I E1) as (I1 & St1 & _ & _).
+  destruct (ar_serialize all_true b1 (a_w a)) as [b2 r2] eqn:E2.
+  destruct (stops true r2) eqn:S2; [discriminate H|]. apply stops_true in S2. subst r2.
+  destruct (ar_serialize_ok _ _ _ I1 E2) as (I2 & Em & St2).
+  injection H as <-. unfold ar_file. cbn [a_bw a_open a_w].
+  assert (Z : fst (bw_flush_buf b2) = b2).
+  { unfold bw_flush_buf. destruct I2 as (L2 & _ & _). rewrite L2, Em. reflexivity. }
+  rewrite Z. split; [|split; reflexivity].
+  unfold bw_stream in St2. rewrite Em, app_nil_r in St2. rewrite St2.
+  fold (bw_stream b1). rewrite St1, St. reflexivity.
+Qed.
+
+Lemma ar_drop_pres : forall P S a, sink_pres P -> P (ar_sink a) -> P (ar_sink (ar_drop S a)).
+Proof.
+  intros P S a HP H. unfold ar_drop.
+  pose proof (ar_close_pres P S a HP H) as H1. destruct (ar_close S a) as [a1 r]. cbn [fst] in H1.
+  destruct (a_open a1); [|exact H1]. unfold ar_sink. cbn [a_bw]. apply bw_flush_buf_pres; assumption.
+Qed.
+
+(* dropping an archive that was closed successfully does no I/O *)
+Lemma ar_drop_closed : forall S a, a_open a = false -> p_close_ser S = true -> ar_drop S a = a.
+Proof.
+  intros S [w b o] Op Ps. cbn [a_open] in Op. subst o. unfold ar_drop, ar_close. cbn [a_open a_bw a_w].
+  rewrite stops_ok. rewrite Ps. cbn [stops a_open]. reflexivity.
+Qed.
+
+(* ------------------------------------------------------------------ finalize and the CLI *)
+Lemma finalize_io_res : forall S a, snd (finalize_io S a) = Ok tt \/ snd (finalize_io S a) = Err.
+Proof.
+  intros. unfold finalize_io. destruct (ar_flush_buffers S a) as [a1 r1].
+  destruct (stops (p_fin_flush S) r1); [auto|].
+  destruct (ar_close S a1) as [a2 r2]. destruct (stops (p_fin_close S) r2); auto.
+Qed.
+
+Lemma finalize_io_pres : forall P S a, sink_pres P -> P (ar_sink a) -> P (ar_sink (fst (finalize_io S a))).
+Proof.
+  intros P S a HP H. unfold finalize_io.
+  pose proof (ar_flush_buffers_pres P S a HP H) as H1.
+  destruct (ar_flush_buffers S a) as [a1 r1]. cbn [fst] in H1.
+  destruct (stops (p_fin_flush S) r1); [exact H1|].
+  pose proof (ar_close_pres P S a1 HP H1) as H2.
+  destruct (ar_close S a1) as [a2 r2]. cbn [fst] in H2.
+  destruct (stops (p_fin_close S) r2); exact H2.
+Qed.
+
+Lemma finalize_io_ok : forall a a', ar_inv a -> finalize_io all_true a = (a', Ok tt) ->
+  ar_file a' = close (fst (flush_buffers (a_w a))) /\ snd (flush_buffers (a_w a)) = Ok tt /\ a_open a' = false.
+Proof.
+  intros a a' I H. unfold finalize_io in H. cbn [all_true p_fin_flush p_fin_close] in H.
+  destruct (ar_flush_buffers all_true a) as [a1 r1] eqn:E1.
+  destruct (stops true r1) eqn:S1; [discriminate H|]. apply stops_true in S1. subst r1.
+  destruct (ar_flush_buffers_ok _ _ I E1) as (I1 & P1).
+  destruct (ar_close all_true a1) as [a2 r2] eqn:E2.
+  destruct (stops true r2) eqn:S2; [discriminate H|]. apply stops_true in S2. subst r2.
+  destruct (ar_close_ok _ _ I1 E2) as (F & Op & _). injection H as <-.
+  rewrite P1. cbn [fst snd]. auto.
+Qed.
+
+Lemma main_io_pres : forall P S a, sink_pres P -> P (ar_sink a) -> P (ar_sink (fst (main_io S a))).
+Proof.
+  intros P S a HP H. unfold main_io, create_archive_io.
+  pose proof (finalize_io_pres P S a HP H) as H1. destruct (finalize_io S a) as [a1 r]. cbn [fst] in H1.
+  pose proof (ar_drop_pres P S a1 HP H1) as H2.
+  destruct (stops (p_cli_finalize S) r); cbn [stops]; destruct (p_cli_create S); exact H2.
+Qed.
+
+Lemma cli_exit_code_proof : forall a, snd (finalize_io all_true a) = Err -> snd (main_io all_true a) = ExitNonZero.
+Proof.
+  intros a H. unfold main_io, create_archive_io. destruct (finalize_io all_true a) as [a1 r]. cbn [snd] in H.
+  subst r. reflexivity.
+Qed.
+
+Lemma main_io_zero : forall a, snd (main_io all_true a) = ExitZero ->
+  snd (finalize_io all_true a) = Ok tt /\ fst (main_io all_true a) = ar_drop all_true (fst (finalize_io all_true a)).
+Proof.
+  intros a H. unfold main_io, create_archive_io in *. destruct (finalize_io all_true a) as [a1 r].
+  cbn [all_true p_cli_finalize p_cli_create] in *. destruct r as [[]| |]; cbn in H; try discriminate H.
+  cbn. auto.
+Qed.
+
+(* ------------------------------------------------------------------ the limit policies *)
+Definition sink_lim (limit : N) (s : sink) : Prop :=
+  (exists p, s_pol s = limit_policy p limit) /\ s_len s <= limit /\ sink_ok s.
+
+Lemma sink_lim_pres : forall limit, sink_pres (sink_lim limit).
+Proof.
+  intros limit s bs ((p & Hp) & L & O). destruct (sink_write s bs) as [s' r] eqn:E. cbn [fst].
+  pose proof (sink_write_keeps_ok _ _ _ _ O E) as O'.
+  unfold sink_write in E. cbv zeta in E. destruct (lenN bs =? 0) eqn:E0.
+  - injection E as <- _. repeat split; eauto.
+  - rewrite Hp in E. unfold limit_policy in E.
+    destruct (s_len s + lenN bs <=? limit) eqn:E1.
+    + rewrite N.leb_refl in E. injection E as <- _. cbn [s_pol s_len]. repeat split; eauto. lia.
+    + destruct p.
+      * destruct (lenN bs <=? limit - s_len s) eqn:E2; [lia|]. injection E as <- _. cbn [s_pol s_len].
+        repeat split; eauto. lia.
+      * destruct (lenN bs <=? 0) eqn:E2; [lia|]. injection E as <- _. cbn [s_pol s_len].
+        repeat split; eauto. lia.
+Qed.
+
+Lemma sink_new_lim : forall p limit, sink_lim limit (sink_new (limit_policy p limit)).
+Proof. intros. unfold sink_lim, sink_new, sink_ok. cbn. repeat split; eauto. lia. Qed.
+
+(* ------------------------------------------------------------------ histories *)
+Lemma wops_of_map : forall ops, wops_of (map AOp ops) = ops.
+Proof. induction ops as [|o r IH]; cbn; [reflexivity | rewrite IH; reflexivity]. Qed.
+
+Lemma ar_step_ok : forall a o a' x, ar_inv a -> ar_step all_true a o = (a', x) -> x <> WErr ->
+  ar_inv a' /\ a_w a' = fst (wrun (a_w a) (wops_of [o])).
+Proof.
+  intros a o a' x I H NE. pose proof I as (Op & Ib & St). destruct o as [[name|sid d m|sid d m| |sid raw]|p n]; cbn [ar_step] in H.
+  - cbn [wops_of wrun wstep]. destruct (register_stream (a_w a) name) as [w' id] eqn:E. injection H as <- <-.
+    cbn [fst a_w ar_with_w]. split; [|reflexivity]. unfold ar_inv, ar_with_w. cbn [a_w a_bw a_open].
+    split; [exact Op|]. split; [exact Ib|]. rewrite St. unfold register_stream in E.
+    destruct (map_get name (w_map (a_w a))); injection E as <- _; reflexivity.
+  - cbn [wops_of wrun wstep]. destruct (ar_add_part all_true a sid d m) as [a1 r] eqn:E. injection H as <- <-.
+    destruct r as [[]| |]; cbn [wres_of] in NE; try congruence.
+    destruct (ar_add_part_ok _ _ _ _ _ I E) as (I1 & P1). rewrite P1. cbn. auto.
+  - cbn [wops_of wrun wstep]. injection H as <- <-. cbn [fst a_w ar_with_w]. split; [|reflexivity].
+    unfold ar_inv, ar_with_w. cbn [a_w a_bw a_open]. split; [exact Op|]. split; [exact Ib|]. exact St.
+  - cbn [wops_of wrun wstep]. destruct (ar_flush_buffers all_true a) as [a1 r] eqn:E. injection H as <- <-.
+    destruct r as [[]| |]; cbn [wres_of] in NE; try congruence.
+    destruct (ar_flush_buffers_ok _ _ I E) as (I1 & P1). rewrite P1. cbn. auto.
+  - cbn [wops_of wrun wstep]. injection H as <- <-. cbn [fst a_w ar_with_w]. split; [|reflexivity].
+    unfold ar_inv, ar_with_w. cbn [a_w a_bw a_open]. split; [exact Op|]. split; [exact Ib|]. rewrite St.
+    unfold set_raw_size. destruct (sid <? lenN (w_streams (a_w a))); reflexivity.
+  - injection H as <- <-. cbn [wops_of wrun fst a_w]. split; [|reflexivity].
+    unfold ar_inv. cbn [a_w a_bw a_open]. split; [exact Op|]. split; [|exact St].
+    destruct Ib as (L & C & O). unfold bw_inv. cbn [b_len b_cap b_sink]. repeat split; auto.
+Qed.
+
+Lemma wrun_cons_fst : forall w o r, fst (wrun w (o :: r)) = fst (wrun (fst (wstep w o)) r).
+Proof.
+  intros. cbn [wrun]. destruct (wstep w o) as [w1 x]. destruct (wrun w1 r) as [w2 xs]. reflexivity.
+Qed.
+
+Lemma ar_run_ok : forall ops a a' rs, ar_inv a -> ar_run all_true a ops = (a', rs) ->
+  Forall (fun x => x <> WErr) rs ->
+  ar_inv a' /\ a_w a' = fst (wrun (a_w a) (wops_of ops)).
+Proof.
+  induction ops as [|o r IH]; intros a a' rs I H F; cbn [ar_run] in H.
+  - injection H as <- <-. cbn. auto.
+  - destruct (ar_step all_true a o) as [a1 x] eqn:E1. destruct (ar_run all_true a1 r) as [a2 xs] eqn:E2.
+    injection H as <- <-. inversion F as [|? ? NE F']. subst.
+    destruct (ar_step_ok _ _ _ _ I E1 NE) as (I1 & W1).
+    destruct (IH _ _ _ I1 E2 F') as (I2 & W2). split; [exact I2|]. rewrite W2, W1.
+    destruct o as [wo|p n]; cbn [wops_of].
+    + rewrite wrun_cons_fst. cbn [wrun]. destruct (wstep (a_w a) wo) as [w1 y]. reflexivity.
+    + reflexivity.
+Qed.
+
+(* the create pipeline before finalize: memory only, no call can fail *)
+Lemma ar_step_buffered : forall S a o, buffered_only o ->
+  a_bw (fst (ar_step S a (AOp o))) = a_bw a /\ snd (ar_step S a (AOp o)) <> WErr.
+Proof.
+  intros S a o B. destruct o as [name|sid d m|sid d m| |sid raw]; cbn [buffered_only] in B; try contradiction;
+    cbn [ar_step].
+  - destruct (register_stream (a_w a) name) as [w' id]. cbn. split; [reflexivity|discriminate].
+  - cbn. split; [reflexivity|discriminate].
+  - cbn. split; [reflexivity|discriminate].
+Qed.
+
+Lemma ar_run_buffered : forall S ops a, Forall buffered_only ops ->
+  a_bw (fst (ar_run S a (map AOp ops))) = a_bw a /\ Forall (fun x => x <> WErr) (snd (ar_run S a (map AOp ops))).
+Proof.
+  intros S ops. induction ops as [|o r IH]; intros a F; cbn [map ar_run].
+  - cbn. auto.
+  - inversion F as [|? ? B F']. subst. destruct (ar_step_buffered S a o B) as (A1 & A2).
+    destruct (ar_step S a (AOp o)) as [a1 x]. cbn [fst snd] in *. destruct (IH a1 F') as (B1 & B2).
+    destruct (ar_run S a1 (map AOp r)) as [a2 xs]. cbn [fst snd] in *. split; [congruence|].
+    constructor; assumption.
+Qed.
+
+Lemma pipeline_state_facts : forall pol cap ops, Forall buffered_only ops ->
+  let a := fst (ar_run all_true (ar_open pol cap) (map AOp ops)) in
+  ar_inv a /\ a_w a = fst (wrun w_init ops) /\ ar_sink a = sink_new pol.
+Proof.
+  intros pol cap ops F a. destruct (ar_run_buffered all_true ops (ar_open pol cap) F) as (B1 & B2).
+  destruct (ar_run all_true (ar_open pol cap) (map AOp ops)) as [a' rs] eqn:E. cbn [fst snd] in *. subst a.
+  destruct (ar_run_ok _ _ _ _ (ar_open_inv pol cap) E B2) as (I & W).
+  split; [exact I|]. split.
+  - rewrite W, wops_of_map. reflexivity.
+  - unfold ar_sink. rewrite B1. reflexivity.
+Qed.
+
+(* ------------------------------------------------------------------ the pinned theorems (stated with all_true;
+   props/C15.v states them with code_sites, which is convertible to all_true exactly as long as every `?` is
+   there) *)
+Theorem finalize_ok_all_written_proof : forall pol cap ops, Forall buffered_only ops ->
+  let a := fst (ar_run all_true (ar_open pol cap) (map AOp ops)) in
+  snd (finalize_io all_true a) = Ok tt ->
+  ar_file (fst (finalize_io all_true a)) = complete_file ops.
+Proof.
+  intros pol cap ops F a H. destruct (pipeline_state_facts pol cap ops F) as (I & W & _). fold a in I, W.
+  destruct (finalize_io all_true a) as [a' r] eqn:E. cbn [fst snd] in *. subst r.
+  destruct (finalize_io_ok _ _ I E) as (Fl & _ & _). rewrite Fl, W. reflexivity.
+Qed.
+
+Theorem write_fault_reported_proof : forall partial limit cap ops, Forall buffered_only ops ->
+  limit < lenN (complete_file ops) ->
+  let a := fst (ar_run all_true (ar_open (limit_policy partial limit) cap) (map AOp ops)) in
+  snd (finalize_io all_true a) = Err /\ snd (main_io all_true a) = ExitNonZero.
+Proof.
+  intros partial limit cap ops F Lt a.
+  assert (X : snd (finalize_io all_true a) = Err).
+  { destruct (finalize_io_res all_true a) as [H | H]; [|exact H]. exfalso.
+    pose proof (finalize_ok_all_written_proof (limit_policy partial limit) cap ops F H) as Fl. fold a in Fl.
+    destruct (pipeline_state_facts (limit_policy partial limit) cap ops F) as (_ & _ & Sk). fold a in Sk.
+    assert (L0 : sink_lim limit (ar_sink a)) by (rewrite Sk; apply sink_new_lim).
+    pose proof (finalize_io_pres _ all_true a (sink_lim_pres limit) L0) as (_ & L1 & O1).
+    unfold ar_file in Fl. unfold ar_sink, sink_ok in *. rewrite Fl in O1. lia. }
+  split; [exact X | apply cli_exit_code_proof; exact X].
+Qed.
+
+Theorem no_success_with_truncated_file_proof : forall pol cap ops, Forall buffered_only ops ->
+  let a := fst (ar_run all_true (ar_open pol cap) (map AOp ops)) in
+  snd (main_io all_true a) = ExitZero ->
+  ar_file (fst (main_io all_true a)) = complete_file ops.
+Proof.
+  intros pol cap ops F a H. destruct (main_io_zero a H) as (Ok1 & Dr). rewrite Dr.
+  pose proof (finalize_ok_all_written_proof pol cap ops F Ok1) as Fl. fold a in Fl.
+  destruct (pipeline_state_facts pol cap ops F) as (I & _ & _). fold a in I.
+  destruct (finalize_io all_true a) as [a' r] eqn:E. cbn [fst snd] in *. subst r.
+  destruct (finalize_io_ok _ _ I E) as (_ & _ & Cl). rewrite ar_drop_closed by (assumption || reflexivity).
+  exact Fl.
+Qed.
+
+(* library level: any history (immediate and buffered parts, flushes, the file system changing its mind in
+   between); if no call reported an error and close returned Ok, the file is the complete archive *)
+Theorem history_ok_all_written_proof : forall pol cap ops,
+  let a := fst (ar_run all_true (ar_open pol cap) ops) in
+  Forall (fun x => x <> WErr) (snd (ar_run all_true (ar_open pol cap) ops)) ->
+  snd (ar_close all_true a) = Ok tt ->
+  ar_file (ar_drop all_true (fst (ar_close all_true a))) = close (fst (wrun w_init (wops_of ops))).
+Proof.
+  intros pol cap ops a F H. destruct (ar_run all_true (ar_open pol cap) ops) as [a0 rs] eqn:E. cbn [fst snd] in *.
+  subst a. destruct (ar_run_ok _ _ _ _ (ar_open_inv pol cap) E F) as (I & W).
+  destruct (ar_close all_true a0) as [a1 r] eqn:E1. cbn [fst snd] in *. subst r.
+  destruct (ar_close_ok _ _ I E1) as (Fl & Cl & _). rewrite ar_drop_closed by (assumption || reflexivity).
+  rewrite Fl, W. reflexivity.
 Qed.
